@@ -264,6 +264,32 @@ pub fn exec(op: &Op) -> R {
         }),
         Op::TryUnwrap(slot) => exec_try_unwrap(*slot),
         Op::MakeMut(slot) => exec_make_mut(*slot),
+        Op::MakeMutIn(o, k) => {
+            // same as make_mut on `&mut value.out[k]`: the handle is moved out, made unique and put
+            // back at the same position (no observation point in between)
+            exec(&Op::Take(*o, *k))?;
+            let slot = world::with(|w| w.handles.len() - 1);
+            let r = exec_make_mut(slot);
+            world::with(|w| {
+                let np = match w.node_ptr(*o) {
+                    Some(p) => p,
+                    None => return, // the owner died in the cascade: the program keeps the handle
+                };
+                let node = unsafe { &*np };
+                let mut v = match node.out.try_borrow_mut() {
+                    Ok(v) => v,
+                    Err(_) => return,
+                };
+                if let Some(rc) = w.handles[slot].take() {
+                    let t = w.htarget[slot];
+                    let pos = (*k).min(v.len());
+                    v.insert(pos, rc);
+                    w.objs[*o as usize].held.insert(pos, t);
+                    w.objs[t as usize].ext -= 1;
+                }
+            });
+            r
+        }
         Op::GetMut(slot) => world::with(|w| {
             if w.handles.get(*slot).map_or(true, |h| h.is_none()) {
                 return inv("getmut: empty slot");
@@ -381,6 +407,24 @@ pub fn exec(op: &Op) -> R {
             inv("panic: only valid once, inside a destructor")
         }
         Op::CloneDead(k) => exec_clone_dead(*k),
+        Op::DowngradeOwn(k) => world::with(|w| {
+            let &(me, np) = w.dying_stack.last().ok_or("downgradeown: not in a destructor")?;
+            let node = unsafe { &*np };
+            let v = node.out.try_borrow().map_err(|_| "downgradeown: busy")?;
+            let h = v.get(*k).ok_or("downgradeown: no such stored handle")?;
+            let t = *w.objs[me as usize].held.get(*k).ok_or("downgradeown: ledger")?;
+            let wk = {
+                let _l = LibGuard::enter();
+                Rc::downgrade(h)
+            };
+            drop(v);
+            w.stats.weak_escapes += 1;
+            if w.objs[t as usize].state != St::Alive {
+                w.stats.weak_escapes_dead += 1;
+            }
+            w.push_weak(wk, Some(t));
+            Ok(())
+        }),
         Op::DropDead(k) => exec_drop_dead(*k),
     }
 }
@@ -721,7 +765,7 @@ fn op_touches(w: &World, op: &Op) -> Option<Vec<ObjId>> {
             v.push(*o);
             h(&HRef::P(*s), &mut v)?
         }
-        Op::Take(o, _) | Op::TakeWeak(o, _) => v.push(*o),
+        Op::Take(o, _) | Op::TakeWeak(o, _) | Op::MakeMutIn(o, _) => v.push(*o),
         Op::StoreWeak(o, _) => v.push(*o),
         Op::Upgrade(wr) | Op::CloneWeak(wr) => {
             if let Some(t) = w.wref_target(*wr)? {
@@ -733,7 +777,7 @@ fn op_touches(w: &World, op: &Op) -> Option<Vec<ObjId>> {
         }
         Op::DropWeak(_) => {}
         Op::Script(o, _, _) => v.push(*o),
-        Op::CloneDead(_) | Op::DropDead(_) => {}
+        Op::CloneDead(_) | Op::DropDead(_) | Op::DowngradeOwn(_) => {}
     }
     Some(v)
 }
@@ -767,7 +811,7 @@ pub fn run_scripts(node: &Node, when: When) {
                 return inv("history stopped");
             }
             match &op {
-                Op::Panic | Op::CloneDead(_) | Op::DropDead(_) => return Ok(()),
+                Op::Panic | Op::CloneDead(_) | Op::DropDead(_) | Op::DowngradeOwn(_) => return Ok(()),
                 Op::Upgrade(_) => return Ok(()),
                 _ => {}
             }
@@ -1123,6 +1167,10 @@ pub fn check_links(w: &mut World, inflight: bool) {
     let n = w.objs.len();
     let mut snaps: Vec<Option<Vec<(usize, u8, usize)>>> = Vec::with_capacity(n);
     for i in 0..n {
+        if w.objs[i].state == St::Alive && w.objs[i].addr == 0 {
+            // value cloned by make_mut whose new allocation is not yet known to the ledger
+            return;
+        }
         if w.objs[i].state == St::Alive {
             let s = unsafe { Rc::<Node>::__verif_links(w.objs[i].addr as *const Node) };
             if s.is_none() {
@@ -1278,7 +1326,7 @@ fn check_mem(w: &mut World) {
     let c = alloc::counters();
     // (bound is deliberately loose: two blocks per live adopted object; an exact conservation check
     // follows at the end of the history)
-    if w.cfg.class != Class::Consume && c.lib_live_blocks > live_boxes + 2 * tables + 1 {
+    if c.lib_live_blocks > live_boxes + 2 * tables + 1 {
         w.viol(
             "mem",
             false,
@@ -1301,7 +1349,7 @@ pub fn check_mem_final() {
         if all_dead && no_handles {
             let c = alloc::counters();
             w.stats.mem_obs += 1;
-            if (c.lib_live_blocks != 0 || c.lib_live_bytes != 0) && w.cfg.class != Class::Consume {
+            if c.lib_live_blocks != 0 || c.lib_live_bytes != 0 {
                 w.viol(
                     "mem",
                     false,
